@@ -269,6 +269,32 @@ def instance_registration(ctx):
     ctx.ob("R08.10", "count", n >= 3, "functions that emit named instances: %d" % n, nontrivial=False)
 
 
+def resource_alias_names(ctx):
+    """R08.10 `alias-names-source`: when the type encoder aliases a resource out of its owner's instance, the export it names
+    is the *source* resource's name in the owner (`types[resolve_resource(alias.source)].name`), not the local name the
+    using world gave it (`use i.{r as s}` must alias export "r")."""
+    db, prov = ctx.db, ctx.prov
+    n = 0
+    for f in db.fns.values():
+        if not f.id.startswith("wac_graph::encoding::TypeEncoder::") or f.from_expansion:
+            continue
+        for st in f.stmts():
+            if st.rv.k == "agg" and st.rv.j.get("variant") == "InstanceExport" and (st.rv.j.get("adt") or "").endswith("Alias"):
+                ops = dict(zip(st.rv.j.get("fields", []), st.rv.ops))
+                if "name" not in ops:
+                    continue
+                sl = prov.slice(f, ops["name"])
+                if not sl.has_field("name", "component::Resource"):
+                    continue
+                n += 1
+                ok = sl.has_call("resolve_resource")
+                ctx.ob("R08.10", "alias-names-source|%s" % f.id.rsplit("::", 1)[-1], ok,
+                       "the aliased export is named after the source resource in its owner" if ok else
+                       "the alias out of the owner's instance is named after the *local* resource, not after the source it aliases: a renamed use (`use i.{r as s}`) aliases a non-existent export `s`",
+                       site="%s in %s" % (st.span, f.id))
+    ctx.ob("R08.10", "alias-names-count", n >= 1, "resource aliases out of an owner instance: %d" % n, nontrivial=False)
+
+
 def resource_identity(ctx):
     """R08.11: inside a scope the encoder must tell resources apart by identity.  `Scope::resources` maps a key to the type
     index a resource got in the scope being written; if that key is the resource's *name*, two different resources that are
@@ -313,6 +339,7 @@ def run(ctx):
     pair_positions(ctx)
     instance_registration(ctx)
     resource_identity(ctx)
+    resource_alias_names(ctx)
     c01.alias_reset(c01.ctx_alias(ctx, "R08.7"))
     c01.index_capture(c01.ctx_alias(ctx, "R08.7"))
     import cachewriters
